@@ -4,7 +4,10 @@ import (
 	"go/ast"
 	"go/token"
 	"go/types"
+	"sort"
 	"strings"
+
+	"golang.org/x/tools/go/ssa"
 
 	"cadcheck/core"
 )
@@ -14,7 +17,8 @@ func init() { register("C18", c18) }
 func c18(r *core.Run) {
 	r.Explanation = "Decided clauses: (R1) every HashInput method of an interpreter value type writes the HashInputType constant that carries its own type's name (HashInputTypeX in (XValue).HashInput); tag numbers are pinned and distinct (C44.R1); " +
 		"(R2) comparison methods Less/LessEqual/Greater/GreaterEqual use the operator that matches their name (native operator, big.Int Cmp result comparison, or the delegate method of the same name), and sibling widths agree; " +
-		"(R3) every StringValue is built by the NFC-normalising constructor (equality, ordering and hashing work on the normalised form); the non-normalising constructors have no shipped caller."
+		"(R3) every StringValue is built by the NFC-normalising constructor (equality, ordering and hashing work on the normalised form); the non-normalising constructors have no shipped caller; " +
+		"(R4) every receiver field read by a value type's HashInput is also read by its Equal (hash computed from compared state only)."
 	r.NotDecided = "the laws on values (equal values hash equally for NFC strings, nested containers, optional wrapping; total order)."
 	w := r.W
 	p := w.Pkg("interpreter")
@@ -121,4 +125,127 @@ func c18(r *core.Run) {
 	// R3 strings are compared, ordered and hashed on their NFC form: every string value is produced by the normalising constructor
 	stringNormalisation(r, "R3.normalised")
 	r.Floor("R3.normalised", 4)
+	c18HashFields(r)
+}
+
+// c18HashFields: R4 — "equal values hash equally" needs the hash input to be computed from the same state that equality
+// compares. For every interpreter value type with both Equal and HashInput (receiver is a struct), every receiver field
+// read by HashInput must also be read by Equal (directly or through same-receiver methods, depth 2). A hash computed
+// from a field that equality ignores (e.g. the unnormalised spelling of a character) gives equal keys different hashes.
+func c18HashFields(r *core.Run) {
+	const rule = "R4.hashfields"
+	w := r.W
+	type pair struct{ eq, hash *ssa.Function }
+	pairs := map[string]*pair{}
+	for _, fn := range w.SrcFuncsIn("interpreter") {
+		if fn.Parent() != nil || fn.Signature.Recv() == nil {
+			continue
+		}
+		rn := core.RecvName0(fn)
+		if rn == "" {
+			continue
+		}
+		if pairs[rn] == nil {
+			pairs[rn] = &pair{}
+		}
+		switch fn.Name() {
+		case "Equal":
+			pairs[rn].eq = fn
+		case "HashInput":
+			pairs[rn].hash = fn
+		}
+	}
+	var fieldsRead func(fn *ssa.Function, depth int, out map[string]bool)
+	fieldsRead = func(fn *ssa.Function, depth int, out map[string]bool) {
+		if len(fn.Params) == 0 {
+			return
+		}
+		recv := fn.Params[0]
+		isRecv := func(v ssa.Value) bool {
+			for i := 0; i < 6; i++ {
+				switch x := v.(type) {
+				case *ssa.Parameter:
+					return x == recv
+				case *ssa.UnOp:
+					v = x.X
+				case *ssa.Alloc:
+					// spilled value receiver: the cell the parameter is stored into
+					if refs := x.Referrers(); refs != nil {
+						for _, ref := range *refs {
+							if st, ok := ref.(*ssa.Store); ok && st.Addr == ssa.Value(x) && st.Val == ssa.Value(recv) {
+								return true
+							}
+						}
+					}
+					return false
+				case *ssa.FreeVar:
+					if b := core.FreeVarBinding(x); b != nil {
+						v = b
+						continue
+					}
+					return false
+				default:
+					return false
+				}
+			}
+			return false
+		}
+		core.Instrs(fn, true, func(in ssa.Instruction) {
+			switch x := in.(type) {
+			case *ssa.FieldAddr:
+				if isRecv(x.X) {
+					if pt, ok := x.X.Type().Underlying().(*types.Pointer); ok {
+						if st, ok := pt.Elem().Underlying().(*types.Struct); ok {
+							out[st.Field(x.Field).Name()] = true
+						}
+					}
+				}
+			case *ssa.Field:
+				if isRecv(x.X) {
+					if st, ok := x.X.Type().Underlying().(*types.Struct); ok {
+						out[st.Field(x.Field).Name()] = true
+					}
+				}
+			case ssa.CallInstruction:
+				sc := x.Common().StaticCallee()
+				if sc == nil || depth >= 2 || sc.Signature.Recv() == nil || len(x.Common().Args) == 0 || len(sc.Blocks) == 0 {
+					return
+				}
+				if core.RecvName0(sc) == core.RecvName0(fn) && isRecv(x.Common().Args[0]) {
+					fieldsRead(sc, depth+1, out)
+				}
+			}
+		})
+	}
+	n := 0
+	var names []string
+	for k := range pairs {
+		names = append(names, k)
+	}
+	sort.Strings(names)
+	for _, rn := range names {
+		p := pairs[rn]
+		if p.eq == nil || p.hash == nil {
+			continue
+		}
+		hf, ef := map[string]bool{}, map[string]bool{}
+		fieldsRead(p.hash, 0, hf)
+		fieldsRead(p.eq, 0, ef)
+		if len(hf) == 0 {
+			continue
+		}
+		n++
+		var extra []string
+		for f := range hf {
+			if !ef[f] {
+				extra = append(extra, f)
+			}
+		}
+		sort.Strings(extra)
+		r.Check(len(extra) == 0, rule, "interpreter.("+rn+"): fields hashed ⊆ fields compared", p.hash.Pos(),
+			"HashInput reads "+strings.Join(sortedKeys(hf), ",")+"; Equal reads "+strings.Join(sortedKeys(ef), ","),
+			"HashInput reads the receiver field(s) "+strings.Join(extra, ",")+" that Equal does not compare: values that are equal can hash differently, so an equal key misses its dictionary entry")
+	}
+	r.Check(n >= 5, rule, "value types with Equal and HashInput over receiver fields", 0, itoa(n)+" examined", "fewer value types than reviewed")
+	r.Floor(rule, 5)
 }
